@@ -184,6 +184,7 @@ type c13aCase struct {
 
 type c13aFact struct {
 	date, amount, cur string
+	pay               bool // a payment row of a Cumulus statement ("P" suffix in the encoding)
 }
 
 func c13aHexOrDash(s string, present bool) string {
@@ -207,6 +208,9 @@ func (c c13aCase) enc() string {
 		p := make([]string, len(c.facts))
 		for i, f := range c.facts {
 			p[i] = f.date + ":" + f.amount + ":" + f.cur
+			if f.pay {
+				p[i] += ":P"
+			}
 		}
 		fs = strings.Join(p, ",")
 	}
@@ -251,9 +255,9 @@ func c13aDecode(in string) c13aCase {
 		case "facts":
 			if v != "-" {
 				for _, f := range strings.Split(v, ",") {
-					x := strings.SplitN(f, ":", 3)
-					if len(x) == 3 {
-						c.facts = append(c.facts, c13aFact{x[0], x[1], x[2]})
+					x := strings.Split(f, ":")
+					if len(x) >= 3 {
+						c.facts = append(c.facts, c13aFact{x[0], x[1], x[2], len(x) > 3 && x[3] == "P"})
 					}
 				}
 			}
@@ -291,9 +295,17 @@ func c13aObserve(imp string, in string) string {
 		out = renderRun(r)
 		pr, rows := "na", "na"
 		if r.class() == "OK" {
-			pr = c13aPrintCheck(dir, imp, c, r.Stdout)
+			stdout := r.Stdout
+			stray := ""
+			// F13: so that the rest of a postfinance import is still judged, a first line of the
+			// form "<n> [...]" is reported as such and the remainder goes through (a) and (b)
+			if i := strings.Index(stdout, "\n"); imp == "postfinance" && i >= 0 && c13aReDebug.MatchString(stdout[:i]) {
+				stray = "fail:stray-debug-line rest="
+				stdout = stdout[i+1:]
+			}
+			pr = stray + c13aPrintCheck(dir, imp, c, stdout)
 			if strings.HasPrefix(c.kind, "wf") {
-				rows = c13aRowsCheck(imp, c, r.Stdout)
+				rows = c13aRowsCheck(imp, c, stdout)
 			}
 		}
 		out += " | print=" + pr + " | rows=" + rows
@@ -342,6 +354,7 @@ func c13aPrintCheck(dir, imp string, c c13aCase, stdout string) string {
 var (
 	c13aReHeader  = regexp.MustCompile(`^(\d{4}-\d{2}-\d{2}) "`)
 	c13aReHeader1 = regexp.MustCompile(`^(\d{4}-\d{2}-\d{2}) ".*"$`)
+	c13aReDebug   = regexp.MustCompile(`^\d+ \[.*\]$`)
 	c13aRePosting = regexp.MustCompile(`^(\S+) +(\S+) +(-?\d+(?:\.\d+)?) (\S+)$`)
 	c13aRePrice   = regexp.MustCompile(`^(\d{4}-\d{2}-\d{2}) price (\S+) (-?\d+(?:\.\d+)?) (\S+)$`)
 )
@@ -434,21 +447,30 @@ func c13aRowsCheck(imp string, c c13aCase, stdout string) string {
 			}
 		}
 	}
-	var want []string
-	for _, f := range c.facts {
-		want = append(want, c13aFactKey(f.date, c13aRat(f.amount), f.cur))
-	}
-	if len(got) != len(want) {
-		return fmt.Sprintf("fail:count %d entries for %d rows", len(got), len(want))
-	}
 	sort.Strings(got)
-	sort.Strings(want)
-	for i := range got {
-		if got[i] != want[i] {
-			return "fail:entry [" + got[i] + "] where the statement has [" + want[i] + "]"
+	cmp := func(withPayments bool) string {
+		var want []string
+		for _, f := range c.facts {
+			if withPayments || !f.pay {
+				want = append(want, c13aFactKey(f.date, c13aRat(f.amount), f.cur))
+			}
 		}
+		if len(got) != len(want) {
+			return fmt.Sprintf("fail:count %d entries for %d rows", len(got), len(want))
+		}
+		sort.Strings(want)
+		for i := range got {
+			if got[i] != want[i] {
+				return "fail:entry [" + got[i] + "] where the statement has [" + want[i] + "]"
+			}
+		}
+		return "ok"
 	}
-	return "ok"
+	res := cmp(true)
+	if res != "ok" && c.pay > 0 && cmp(false) == "ok" {
+		return fmt.Sprintf("fail:payment rows dropped (%d), the other %d rows ok", c.pay, len(got))
+	}
+	return res
 }
 
 func c13aClip(s string, n int) string {
@@ -722,7 +744,7 @@ func c13aGenSwisscard2(r *rng, mal string) c13aCase {
 		}
 		b.WriteString(pick(r, []string{"\n", "\n", "\r\n"}))
 		c.nl = c.nl || c13aHasNewline(fields...)
-		c.facts = append(c.facts, c13aFact{c13aISO(row.date), row.amt.value(!row.credit), cur})
+		c.facts = append(c.facts, c13aFact{c13aISO(row.date), row.amt.value(!row.credit), cur, false})
 	}
 	c.file = []byte(b.String())
 	return c
@@ -839,7 +861,7 @@ func c13aGenViac(r *rng, mal string) c13aCase {
 		}
 		zero := strings.Trim(ip+fp, "0") == ""
 		if !zero && !(c.hasFrom && t.Before(from)) {
-			c.facts = append(c.facts, c13aFact{date, c13aRound2(neg, ip, fp, exp), "CHF"})
+			c.facts = append(c.facts, c13aFact{date, c13aRound2(neg, ip, fp, exp), "CHF", false})
 		}
 	}
 	b.WriteString("]}")
@@ -881,7 +903,7 @@ func c13aGenCumulus(r *rng, mal string) c13aCase {
 		a := c13aGenAmount(r, true)
 		fmt.Fprintf(&b, "%s,Ihre LSV-Zahlung - Besten Dank,%s,\n", c13aDMY(t), a.text())
 		c.pay++
-		c.facts = append(c.facts, c13aFact{c13aISO(t), a.value(false), "CHF"})
+		c.facts = append(c.facts, c13aFact{c13aISO(t), a.value(false), "CHF", true})
 	}
 	b.WriteString("Einkaufs-Datum,Verbucht am,Beschreibung,Gutschrift CHF,Belastung CHF\n")
 	for i, row := range rows {
@@ -932,7 +954,7 @@ func c13aGenCumulus(r *rng, mal string) c13aCase {
 			}
 		}
 		b.WriteString("\n")
-		c.facts = append(c.facts, c13aFact{c13aISO(row.date), row.amt.value(!row.credit), "CHF"})
+		c.facts = append(c.facts, c13aFact{c13aISO(row.date), row.amt.value(!row.credit), "CHF", false})
 		if r.chance(25) {
 			k := r.rangeInt(1, 2)
 			for ; k > 0; k-- {
@@ -947,7 +969,7 @@ func c13aGenCumulus(r *rng, mal string) c13aCase {
 		credit := r.chance(50)
 		g, l := two(a, credit)
 		fmt.Fprintf(&b, "%s,Rundungskorrektur,%s,%s\n", c13aDMY(t), g, l)
-		c.facts = append(c.facts, c13aFact{c13aISO(t), a.value(!credit), "CHF"})
+		c.facts = append(c.facts, c13aFact{c13aISO(t), a.value(!credit), "CHF", false})
 	}
 	c.file = []byte(b.String())
 	return c
@@ -1049,7 +1071,7 @@ func c13aGenPostfinance(r *rng, mal string) c13aCase {
 			}
 		}
 		b.WriteString(nlc)
-		c.facts = append(c.facts, c13aFact{c13aISO(row.date), row.amt.value(!row.credit), cur})
+		c.facts = append(c.facts, c13aFact{c13aISO(row.date), row.amt.value(!row.credit), cur, false})
 	}
 	b.WriteString(nlc)
 	b.WriteString("Disclaimer:" + nlc)
@@ -1113,7 +1135,7 @@ func c13aGenSwisscard(r *rng, mal string) c13aCase {
 		}
 		b.WriteString("\n")
 		c.nl = c.nl || c13aHasNewline(fields...)
-		c.facts = append(c.facts, c13aFact{c13aISO(row.date), row.amt.value(!row.credit), "CHF"})
+		c.facts = append(c.facts, c13aFact{c13aISO(row.date), row.amt.value(!row.credit), "CHF", false})
 	}
 	c.file = []byte(b.String())
 	return c
@@ -1207,7 +1229,7 @@ func c13aGenSupercard(r *rng, mal string) c13aCase {
 		}
 		b.WriteString("\n")
 		c.nl = c.nl || c13aHasNewline(fields...)
-		c.facts = append(c.facts, c13aFact{c13aISO(row.date), row.amt.value(!row.credit), row.cur})
+		c.facts = append(c.facts, c13aFact{c13aISO(row.date), row.amt.value(!row.credit), row.cur, false})
 	}
 	if r.chance(40) { // totals: no account number, or the short 11-field form
 		if r.chance(50) {
